@@ -659,6 +659,31 @@ static void cmd_read(char* args, int print_msg) {
     free(b);
 }
 
+/* Z <opt> <hex> : like R with the preset registry, but the registry is private to the
+ * call and destroyed BEFORE the value is dumped and freed (C15: destroying a registry never
+ * invalidates values) */
+static void cmd_read_destroy(char* args) {
+    char* optS = strtok(args, " \n");
+    char* hex = strtok(NULL, " \n");
+    int opt = optS ? atoi(optS) : 0;
+    size_t n;
+    unsigned char* b = unhex(hex, &n);
+    placed_t p = place_input(b, n);
+    edn_reader_registry_t* saved = preset_registry;
+    preset_registry = NULL;
+    edn_result_t r = do_read(p.ptr, n, opt | 8);
+    edn_reader_registry_destroy(preset_registry);
+    preset_registry = saved;
+    print_result(stdout, r, 1);
+    fputc('\n', stdout);
+    fflush(stdout);
+    if (r.value && r.value != &eof_sentinel)
+        edn_free(r.value);
+    edn_free(NULL);
+    release_input(p);
+    free(b);
+}
+
 /* ------------------------------------------------------------------ */
 /* S : scanners                                                        */
 /* ------------------------------------------------------------------ */
@@ -1252,6 +1277,7 @@ int main(int argc, char** argv) {
     memset(&eof_sentinel, 0, sizeof(eof_sentinel));
     eof_sentinel.type = EDN_TYPE_KEYWORD;
     eof_sentinel.arena = NULL;
+    edn_free(NULL); /* harmless by contract */
     size_t cap = 1 << 22;
     char* line = (char*) malloc(cap);
     while (1) {
@@ -1273,6 +1299,9 @@ int main(int argc, char** argv) {
                 break;
             case 'M': /* like R but also prints the message text (impl-vs-impl oracles) */
                 cmd_read(args, 1);
+                break;
+            case 'Z':
+                cmd_read_destroy(args);
                 break;
             case 'S':
                 cmd_scan(args);
